@@ -696,7 +696,7 @@ pub fn run_property(prop: &'static dyn Property, tier: Tier) -> i32 {
                         Verdict::Inconclusive(m) => {
                             if count {
                                 st.inconclusive += 1;
-                                if st.inconclusive_notes.len() < 5 {
+                                if st.inconclusive_notes.len() < 5 || std::env::var("C10_SURVEY").is_ok() {
                                     st.inconclusive_notes.push(m);
                                 }
                             }
